@@ -81,14 +81,18 @@ Fixpoint visible (c : cfg) (log : list sbatch) : list cmsg :=
   end.
 
 (* The broker's aborted-transaction index: entries (producer id, first offset, offset of the abort marker).
-   [index_wf]: every entry starts at a transactional data batch of its producer, ends at an abort marker of
-   that producer, and no marker of that producer lies in between.
+   [index_wf]: every entry starts at a transactional data batch of its producer - or before the start of the
+   log, when the head of the log was deleted (retention / DeleteRecords) in the middle of the transaction: the
+   broker keeps reporting the original first offset -, ends at an abort marker of that producer, and no
+   marker of that producer lies in between.
    [index_complete]: a transactional data batch is aborted exactly when it lies inside an entry's span. *)
 Definition entry := (Z * Z * Z)%type.
+Definition log_start (log : list sbatch) : Z := match log with [] => 0 | s :: _ => lo s end.
 Definition index_wf (log : list sbatch) (es : list entry) : Prop :=
   forall p f m, In (p, f, m) es ->
     f < m /\
-    (exists b, In (SBatch b) log /\ rb_first b = f /\ rb_control b = false /\ rb_txn b = true /\ rb_pid b = p) /\
+    (f < log_start log \/
+     exists b, In (SBatch b) log /\ rb_first b = f /\ rb_control b = false /\ rb_txn b = true /\ rb_pid b = p) /\
     (exists b, In (SBatch b) log /\ rb_first b = m /\ marker_of b = Some 0 /\ rb_pid b = p) /\
     (forall b, In (SBatch b) log -> marker_of b <> None -> rb_pid b = p -> ~ (f <= rb_first b < m)).
 Definition index_complete (log : list sbatch) (es : list entry) : Prop :=
